@@ -21,7 +21,9 @@ static int run(char** argv)
     for (size_t k = 0; k < R; ++k) { ref = ref * d[k] + i[k]; sz *= d[k]; }
     const auto got  = call_index(d, i, std::make_index_sequence<R>{});
     const auto gsz  = size(d);
-    const bool ok   = (__int128)got == ref && (__int128)gsz == sz && got >= 0 && got < gsz;
+    bool empty = false;   // an empty tensor has no valid index tuple: only size() is compared then
+    for (size_t k = 0; k < R; ++k) empty = empty || d[k] <= 0;
+    const bool ok   = (__int128)gsz == sz && (empty || ((__int128)got == ref && got >= 0 && got < gsz));
     std::printf("{\"index\": %lld, \"reference\": %lld, \"size\": %lld, \"reference_size\": %lld, \"ok\": %s}\n", (long long)got,
                 (long long)ref, (long long)gsz, (long long)sz, ok ? "true" : "false");
     return ok ? 0 : 1;
